@@ -704,6 +704,10 @@ func goCode(root string, unit string) string {
 		header("Model.GoSem")
 		text, errs := translateConfig(parseFile(root, "config/config.go"))
 		emit("config/config.go (struct, defaults, postprocess)", text, errs)
+	case "splicer":
+		header("Model.GoSem", "Model.GoSlices")
+		text, errs := translateSplicer(parseFile(root, "splicer/splicer.go"), parseFile(root, "pub/interfaces.go"), "Splicer", []string{"Harvest", "clone", "replenish", "microharvest"})
+		emit("splicer/splicer.go (element type, Harvest, clone, replenish, microharvest)", text, errs)
 	default:
 		b.WriteString("-- unknown unit " + unit + "\n")
 	}
